@@ -58,6 +58,9 @@ thread_local! {
 }
 
 pub fn install_quiet_panic_hook() {
+    if std::env::var("FJV_LOUD").is_ok() {
+        return;
+    }
     std::panic::set_hook(Box::new(|info| {
         let msg = if let Some(s) = info.payload().downcast_ref::<&str>() {
             (*s).to_string()
@@ -67,12 +70,20 @@ pub fn install_quiet_panic_hook() {
             "panic".to_string()
         };
         let loc = info.location().map(|l| format!(" at {}:{}", l.file(), l.line())).unwrap_or_default();
-        PANIC_MSG.with(|m| *m.borrow_mut() = Some(format!("{msg}{loc}")));
+        let _ = PANIC_MSG.try_with(|m| {
+            if let Ok(mut g) = m.try_borrow_mut() {
+                *g = Some(format!("{msg}{loc}"));
+            }
+        });
     }));
 }
 
 pub fn take_panic_msg() -> String {
-    PANIC_MSG.with(|m| m.borrow_mut().take()).unwrap_or_else(|| "panic".into())
+    PANIC_MSG
+        .try_with(|m| m.try_borrow_mut().ok().and_then(|mut g| g.take()))
+        .ok()
+        .flatten()
+        .unwrap_or_else(|| "panic".into())
 }
 
 static DIR_COUNTER: AtomicU64 = AtomicU64::new(0);
@@ -110,6 +121,13 @@ pub fn run_program<P: Property>(
     stats: Option<&mut P::Stats>,
 ) -> RunResult<P::Op> {
     let dir = fresh_dir();
+    if let Ok(t) = std::env::var("FJV_TRACE_PROGRAMS") {
+        let _ = std::fs::create_dir_all(&t);
+        let _ = std::fs::write(
+            std::path::Path::new(&t).join(format!("{:?}", std::thread::current().id())),
+            format!("{}\n{}", dir.display(), prog_str(program)),
+        );
+    }
     let r = std::panic::catch_unwind(std::panic::AssertUnwindSafe(|| {
         let mut w = match prop.init(dir.clone()) {
             Ok(w) => w,
@@ -123,10 +141,11 @@ pub fn run_program<P: Property>(
                 return RunResult::Bad(v);
             }
         }
+        // continuations are computed on the reached state, before the oracle runs (an oracle may drive the
+        // database further, e.g. C10's quiescence clause)
+        let children = if program.len() < max_len { prop.enabled(&w, program.len()) } else { vec![] };
         match prop.check(&mut w) {
             Ok(digests) => {
-                let children =
-                    if program.len() < max_len { prop.enabled(&w, program.len()) } else { vec![] };
                 if let Some(s) = stats {
                     prop.absorb(&w, s);
                 }
